@@ -17,7 +17,8 @@ REQUIRED_THEOREMS = [
     'pathsToDict_dictToPaths', 'hierarchyDepth_eq_dictToPaths', 'pathsToDict_hierarchyDepth',
     'getIn_of_mem_dictToPaths', 'normalize_append_normalize', 'normalize_append_clean',
     'normalize_right_leg_fails', 'dictToPaths_pathsToDict_single_partial',
-    'dictToPaths_pathsToDict_dict_value_witness',
+    'dictToPaths_pathsToDict_dict_value_witness', 'dictToPaths_pathsToDict_distinct_heads_partial',
+    'dictToPaths_pathsToDict_shared_head_regroups',
 ]
 ANCHORS = [
     ('vivarium/core/store.py', ['Store.add_node']),
@@ -575,7 +576,7 @@ LEVEL_TEXT = ('Lean 4 theorems, for all trees and all paths (unbounded): walking
 LEVEL_NOTE = ('Trusted: Lean kernel; axioms ⊆ {propext, Classical.choice, Quot.sound}; the hand-written model '
               'of topology.py/store.py navigation, validated by differential runs (exhaustive over a small '
               'family in the thorough tier). The inverse law is proved in the direction dictionary -> paths -> dictionary; '
-              'the converse is proved for a single path (dictToPaths_pathsToDict_single_partial) and, for a prefix-free path list, checked by the oracle only. Process '
+              'the converse is proved for a single path and for lists of paths with pairwise distinct first keys (dictToPaths_pathsToDict_single_partial, ..._distinct_heads_partial) and, for prefix-free lists sharing first keys, checked by the oracle only. Process '
               'nodes on the route are out of scope.')
 TECHNIQUE = 'Lean 4 proof by induction over paths + model/code correspondence (differential)'
 
